@@ -2,6 +2,7 @@ package main
 
 import (
 	"fmt"
+	"os"
 	"strings"
 	"time"
 
@@ -22,43 +23,113 @@ import (
 // folds the MAC prefix in only afterwards, at egress), against construction
 // direction the value the info field carries when the router is done (it folds
 // the prefix in before verifying).
+// Buckets every run has to fill (the property names full segments, shortcuts and
+// peering, both directions, and several border routers in one AS).
+var walkKinds = []string{"full", "shortcut", "peering"}
+
+func requiredBuckets() []string {
+	var out []string
+	for _, cd := range []bool{true, false} {
+		for _, k := range walkKinds {
+			out = append(out, fmt.Sprintf("walk:consdir=%v,%s", cd, k))
+		}
+		out = append(out, fmt.Sprintf("walk:several-routers-in-an-AS,consdir=%v", cd))
+	}
+	return out
+}
+
 func walkCases(run *vgen.Run, rng *vgen.Rand) {
 	nWorlds := run.Count(4, 150)
 	perWorld := 8
+	minBucket := 2
 	if run.Tier == "thorough" {
 		perWorld = 30
+		minBucket = 20
 	}
+	// extra worlds are generated only while a required bucket is short; from them only
+	// paths that fill such a bucket are used
+	maxWorlds := nWorlds + 40
+	have := map[string]int{}
+	short := func() []string {
+		var out []string
+		for _, b := range requiredBuckets() {
+			if have[b] < minBucket {
+				out = append(out, b)
+			}
+		}
+		return out
+	}
+	undelivered := 0
 	now := time.Now().Unix()
-	for wi := 0; wi < nWorlds; wi++ {
+	for wi := 0; wi < maxWorlds; wi++ {
+		if wi >= nWorlds && len(short()) == 0 {
+			break
+		}
 		r := rng.Fork(uint64(9_000_000 + wi))
 		w := netgen.NewWorld(r, wi, now)
 		count := 0
 		for _, pr := range w.Pairs(r) {
-			if count >= perWorld {
+			if (wi >= nWorlds || count >= perWorld) && len(short()) == 0 {
 				break
 			}
-			ps, err := w.Paths(r, pr[0], pr[1], 2)
+			ps, err := w.Paths(r, pr[0], pr[1], 6)
 			if err != nil {
 				run.Violate(-1, "path construction failed: "+err.Error(), map[string]any{"topology": w.Net.Describe()})
 				continue
 			}
 			for _, p := range ps {
-				if count >= perWorld {
-					break
-				}
 				if _, expired, borderline := p.ExpiryMargin(now); expired || borderline {
 					continue
 				}
 				p.SetHosts(r, w.Net)
 				s, err := w.Send(p, nil)
-				if err != nil || !s.Walk.Delivered() {
+				if err != nil {
+					run.Violate(-1, "cannot send: "+err.Error(), map[string]any{"topology": w.Net.Describe()})
+					continue
+				}
+				wcs := buildWalk(w, p, s)
+				if !s.Walk.Delivered() {
+					// An honest, unexpired path of the real combinator over beaconed segments must be
+					// delivered: a SegID that went out of step makes the next MAC check drop the
+					// packet. The SegIDs observed up to the drop are still compared with the model.
 					run.Tally("walk:not-delivered")
+					undelivered++
+					if undelivered <= 25 {
+						id := -1
+						for _, c := range wcs {
+							id = run.Add("walk", c.term, c.key, c.nontrivial, c.desc)
+						}
+						run.Violate(id, "an honest, unexpired path was not delivered: "+s.Walk.Final.Kind+" "+
+							s.Walk.Final.StopDesc+" at "+s.Walk.Final.IA.String(), map[string]any{
+							"topology": w.Net.Describe(), "path": p.Kind(), "crossed": strings.Join(s.Walk.Crossed(), " ")})
+					}
+					continue
+				}
+				needed := false
+				for _, c := range wcs {
+					for _, b := range c.buckets {
+						if have[b] < minBucket {
+							needed = true
+						}
+					}
+				}
+				if !needed && (wi >= nWorlds || count >= perWorld) {
 					continue
 				}
 				count++
-				emitWalk(run, w, p, s)
+				for _, c := range wcs {
+					for _, b := range c.buckets {
+						have[b]++
+						run.Tally(b)
+					}
+					run.Add("walk", c.term, c.key, c.nontrivial, c.desc)
+				}
 			}
 		}
+	}
+	if miss := short(); len(miss) > 0 && run.N == 0 {
+		fmt.Fprintf(os.Stderr, "c22: walk buckets not filled (need %d each): %v; have %v\n", minBucket, miss, have)
+		os.Exit(3)
 	}
 }
 
@@ -67,14 +138,23 @@ type visit struct {
 	used         uint16
 }
 
-func emitWalk(run *vgen.Run, w *netgen.World, p *netgen.Path, s *netgen.Sent) {
+type walkCase struct {
+	term, key  string
+	nontrivial bool
+	desc       map[string]any
+	buckets    []string
+}
+
+// buildWalk turns the steps of a (possibly dropped) walk into one CWalk case per slice.
+func buildWalk(w *netgen.World, p *netgen.Path, s *netgen.Sent) []walkCase {
+	var out []walkCase
 	nh := p.NumHops()
 	visits := make([][]visit, nh)
 	segOf := func(k int) int { return s.Rec.InfIndexForHF(k) }
 	steps := s.Walk.Steps
 	for si, st := range steps {
 		if st.In == nil || st.Out == nil {
-			return
+			break // the router that dropped the packet: nothing observable after it
 		}
 		k := int(st.In.CurrHF)
 		delivered := si == len(steps)-1
@@ -87,7 +167,7 @@ func emitWalk(run *vgen.Run, w *netgen.World, p *netgen.Path, s *netgen.Sent) {
 			return st.Out.Infos[j].SegID
 		}
 		if k >= nh {
-			return
+			break
 		}
 		visits[k] = append(visits[k], visit{inExt: st.Ing.Kind == rtgen.IngExt, egExt: st.Ext && !xover, used: used(k)})
 		if xover && k+1 < nh {
@@ -125,15 +205,16 @@ func emitWalk(run *vgen.Run, w *netgen.World, p *netgen.Path, s *netgen.Sent) {
 		case len(sl.Hops) < len(sl.Sigmas):
 			kind = "shortcut"
 		}
-		run.Tally(fmt.Sprintf("walk:consdir=%v,%s", sl.ConsDir, kind))
+		buckets := []string{fmt.Sprintf("walk:consdir=%v,%s", sl.ConsDir, kind)}
 		if multi {
-			run.Tally("walk:several-routers-in-an-AS")
+			buckets = append(buckets, fmt.Sprintf("walk:several-routers-in-an-AS,consdir=%v", sl.ConsDir))
 		}
 		desc := map[string]any{
 			"topology": w.Net.Describe(), "path": p.Kind(), "slice": j, "consdir": sl.ConsDir, "kind": kind,
 			"segment_len": len(sl.Sigmas), "hops": len(sl.Hops),
 			"crossed": strings.Join(s.Walk.Crossed(), " "),
 		}
-		run.Add("walk", term, fmt.Sprintf("%x|%d", s.Raw, j), len(sl.Hops) >= 2 || sl.Peer, desc)
+		out = append(out, walkCase{term, fmt.Sprintf("%x|%d", s.Raw, j), len(sl.Hops) >= 2 || sl.Peer, desc, buckets})
 	}
+	return out
 }
